@@ -659,10 +659,10 @@ def build_value(v, classes, faults=None):
     if tag == "box":
         return Box(b(payload))
     if tag == "bomb":
-        return Bomb(True)  # copying it raises
+        return Bomb(True, signal=(payload == "signal"))  # copying it raises (an Exception, or a cancellation signal)
     if tag == "catchbomb":
         # a container that survives the failing copy of a spec instance nested in it: Catcher(Carrier(payload=<armed>))
-        carrier = classes["__carrier__"](payload=Bomb(False))
+        carrier = classes["__carrier__"](payload=Bomb(False, signal=(payload == "signal")))
         carrier.payload.armed = True
         return Catcher(carrier)
     if tag == "leaf":
